@@ -20,8 +20,8 @@ CLAIMS = {
   "C05": ("exploration", TECH + " (flag logic deductive; detection bounded, sampled)",
           "Detection rests on LLL / best-first heuristics: seeded members of each documented family at the documented margins (bounded, sampled). Deductive part: the Check methods flag exactly when the callee reports (CheckContinuedFraction, Pollardpm1 gcd_bound gate, LowHammingWeight severity rule), search loops try candidates until the first success.",
           NOTE, "DESIGN.md 4/C05"),
-  "C10": ("exploration", TECH + " (index mapping deductive; search completeness bounded)",
-          "BatchDL / BatchDLOfDifferences / ExtendedBatchDL completeness: exhaustive for all x, all list lengths and call histories on small prime-order curves, edge cases on named curves (bounded). Deductive part: CheckWeakECPrivateKey / CheckECKeySmallDifference flag key i exactly when search result i is not None (partition by curve preserves the index mapping).",
+  "C10": ("exploration", TECH + " (search space, table index space and index mapping deductive; group-element correctness of the search bounded)",
+          "Deductive part (all n, all list lengths, all curves): BatchDL search space (the giant steps j*t together with the baby-step window |delta| < table_size reach every x in [0, n); the table cached on the curve is at least as large as the window), PointTable index space (the stored values i*m + j with j < m == len(sequence_low), i < len(sequence_high) reach every index in [0, n)), BatchDLOfDifferences (cached table covers max_diff whenever the search runs), CheckWeakECPrivateKey / CheckECKeySmallDifference flag key i exactly when search result i is not None (partition by curve preserves the index mapping). That table keys and candidates are the right group elements (PointSequence, BatchAddX values, ExtendedBatchDL multiplier bookkeeping) is assumed and decided by the bounded tier: exhaustive for all x, all list lengths and call histories on small prime-order curves, edge cases on named curves.",
           NOTE, "DESIGN.md 4/C10"),
   "C11": ("proof", TECH,
           "Formulas, for every prime field (congruence mode: the bodies are executed with `% self.mod` dropped, postconditions are integer polynomial identities over ghost affine coordinates, the chord/tangent slope stated inverse-free): AddJacobian and DoubleJacobian (both the a == -3 shortcut and the general formula) represent the textbook chord / tangent result (X3 == x3*Z3^2, Y3 == y3*Z3^3), affine Add / Double satisfy the textbook law with an explicit modular-inverse witness, Negate, AffineToJacobian, JacobianToAffine. Named-curve parameters: ground obligations. Special-case branch correspondence, scalar multiplication loops and every batched variant: bounded, exhaustive over whole small prime-order groups against an independent implementation.",
@@ -51,7 +51,7 @@ CLAIMS = {
           "SplitSequence length and block range proved for all inputs; every bit-sequence primitive is checked exhaustively on all short strings and on both sides of each fast-path threshold against one-line definitions (bounded).",
           NOTE, "DESIGN.md 4/C15"),
   "C17": ("proof", TECH,
-          "Non-interference by loop cut: every per-artifact loop body of the individual checks is verified from an ARBITRARY state of all loop-carried variables (havoc at the cut) and writes only to that artifact's own test_info (call-site obligations `args[0] is key.test_info`), with closed-form verdicts proved functions of the artifact alone; joint checks: verdict i is tied to search result i through the order-preserving per-curve / per-issuer partition. Batch-size dependence of the EC table (finding F9) and cross-call caches: bounded tier.",
+          "Non-interference by loop cut: every per-artifact loop body of the individual checks is verified from an ARBITRARY state of all loop-carried variables (havoc at the cut) and writes only to that artifact's own test_info (call-site obligations `args[0] is key.test_info`), with closed-form verdicts proved functions of the artifact alone; joint checks: verdict i is tied to search result i through the order-preserving per-curve / per-issuer partition. The EC table shared across calls: PointTable's index space and BatchDL's `self._table_size >= table_size` obligation are discharged for every request size; a syntactic frame obligation per function rules out any other state outside the arguments (module/class-level mutation, writes to self outside __init__). Batch-size dependence of the search range (finding F9) and histories on real objects: bounded tier.",
           NOTE, "DESIGN.md 4/C17"),
   "C20": ("proof", TECH,
           "0 <= RandomBits(n) < 2^n is discharged for all n >= 1 and all seeds for the 13 generator bodies (bytes/bit-length theory), TruncLcgRand restricted to n % 8 == 0 with the complementary obligation listed as known finding F6; registry, determinism, java.util.Random and truncated-LCG streams: bounded.",
